@@ -150,6 +150,7 @@ def generate(rng, tier, index):
         call = C02.gen_mtl_call(rng, spec, roles, dtype, families=["Constant", "Sum", "Mean", "UPGrad"])
         call["chunk"] = k
         call["retain"] = retain
+        C02.fix_retain(spec, call)
     else:
         r = _gen_backward_world(rng, dtype, m, p_hostile)
         if r is None:
